@@ -46,6 +46,65 @@ def observed(cfg, length, base, hist_desc):
     return None
 
 
+def seq_once(hist, y):
+    """Run one sequential history [(index, mode), ...] then observe config y,
+    in this interpreter; returns the mismatch message or None."""
+    full, _ = I.alphabet()
+    base = I.baselines([full[y]])[0]
+    # lengths of history members come from their own baselines
+    hb = I.baselines([full[x] for x, _m in hist]) if hist else []
+    clear_all_memos()
+    for (x, mode), b in zip(hist, hb):
+        partial_run(full[x], len(b["stream"]), mode)
+    return observed(full[y], len(base["stream"]), base,
+                    [f"{full[x]!r}:{m}" for x, m in hist])
+
+
+def fresh_seq_many(cases):
+    """cases: list of (hist, y).  Each is executed in its own fresh
+    interpreter (16 at a time); returns the list of messages (None = the
+    observed stream equals its baseline)."""
+    import json
+    import os
+    import subprocess
+    import sys
+    code = ("import sys, json; sys.path.insert(0, %r); "
+            "from vf import props_c15 as P; "
+            "c = json.loads(sys.argv[1]); "
+            "print('SEQ ' + json.dumps(P.seq_once([tuple(h) for h in c[0]], "
+            "c[1])))" % common.VERIF_DIR)
+    env = dict(os.environ, PYTHONHASHSEED="0", VERIF_REPO=common.REPO)
+    out = []
+    for i in range(0, len(cases), 16):
+        procs = [subprocess.Popen([sys.executable, "-c", code,
+                                   json.dumps([list(map(list, h)), y])],
+                                  stdout=subprocess.PIPE,
+                                  stderr=subprocess.PIPE, env=env, text=True)
+                 for h, y in cases[i:i + 16]]
+        for p in procs:
+            so, se = p.communicate(timeout=600)
+            line = [x for x in so.splitlines() if x.startswith("SEQ ")]
+            out.append(json.loads(line[-1][4:]) if line
+                       else f"HARNESS: {se[-300:]}")
+    return out
+
+
+def confirm_sequential(hist, y, nfull):
+    """A mismatch seen inside a long-lived worker may be caused by what the
+    worker ran earlier (a cache the harness does not know about).  Find a
+    history that reproduces it in a fresh interpreter: the stated one, else
+    the stated one preceded by one more alphabet member."""
+    hist = [tuple(h) for h in hist]
+    m = fresh_seq_many([(hist, y)])[0]
+    if m is not None:
+        return hist, m
+    cases = [([(x, "end")] + hist, y) for x in range(nfull)]
+    for (h, _y), m in zip(cases, fresh_seq_many(cases)):
+        if m is not None:
+            return h, m
+    return None, None
+
+
 def memo_keys(cfg, length):
     """Keys of the library's memo tables touched by one configuration run in
     isolation (vacuity measure for the interleavings)."""
@@ -114,11 +173,22 @@ def check(prop, tier):
     for n, bad in common.pmap(worker_a, len(tasks)):
         nseq += n
         for hist, y, msg in bad:
+            if any(v["key"].get("code") == "history_dependent"
+                   for v in res.violations) and len(res.violations) > 3:
+                res.violation({"code": "history_dependent",
+                               "cls": full[y].cls}, f"{full[y]!r}: {msg}",
+                              res.violations[0]["replay"])
+                continue
+            h2, m2 = confirm_sequential(hist, y, len(full))
             rp = common.write_replay(prop, "sequential", {
-                "property": prop, "kind": "c15_seq", "history": hist,
-                "observed": y})
+                "property": prop, "kind": "c15_seq",
+                "history": [list(h) for h in (h2 or hist)], "observed": y,
+                "reproduced_in_fresh_interpreter": h2 is not None})
             res.violation({"code": "history_dependent", "cls": full[y].cls},
-                          f"{full[y]!r}: {msg}", rp)
+                          f"{full[y]!r}: " + (m2 if h2 is not None else
+                          msg + " [seen after a longer history of the "
+                          "exploring process; not reproduced by a history of "
+                          "length <= 3 in a fresh interpreter]"), rp)
     res.add(evaluations=nseq, states=nseq,
             transitions=nseq, traces_validated_against_impl=nseq)
     res.counters["sequential_histories"] = nseq
@@ -268,13 +338,8 @@ def replay(prop, payload):
         r = I.fresh_run(cfgs, payload["lengths"], [payload["schedule"]])
         bad = any(list(r[t][0]) != base[t]["stream"] for t in (0, 1))
     elif k == "c15_seq":
-        base = I.baselines(full)
-        lens = [len(b["stream"]) for b in base]
-        clear_all_memos()
-        for x, mode in payload["history"]:
-            partial_run(full[x], lens[x], mode)
-        y = payload["observed"]
-        m = observed(full[y], lens[y], base[y], payload["history"])
+        m = fresh_seq_many([([tuple(h) for h in payload["history"]],
+                             payload["observed"])])[0]
         print(m)
         bad = m is not None
     else:
